@@ -80,6 +80,10 @@ func (g *generator) run(pass *codegen.Pass) error {
 
 	tmplList := map[string]TemplateData{}
 
+	// The error-variable memory is process-global while packages are analyzed concurrently.
+	validator.GeneratorMu.Lock()
+	defer validator.GeneratorMu.Unlock()
+
 	inspector.Preorder(nodeFilter, func(n ast.Node) {
 		genDecl, ok := n.(*ast.GenDecl)
 		if !ok || genDecl.Tok != token.TYPE {
@@ -100,6 +104,8 @@ func (g *generator) run(pass *codegen.Pass) error {
 			if !ok {
 				continue
 			}
+
+			validator.ResetGeneratorMemory()
 
 			metadata := analyzeMarker(pass, markersInspect, typeMarkers, structType, "", ts.Name.Name)
 			if len(metadata) == 0 {
